@@ -140,8 +140,14 @@ def simulate(case, close_at, want_blocks=True):
         t = eng._cleanup_timer
         a_ = src["a"]
         rx = a_.ltransport if a_.ltransport is not None else a_.transport   # where Host.deliver hands datagrams in
+        # the listener invariant read off the real objects: fewest deferred packets over the armed TC timers (None: none armed)
+        tcmin = None
+        for pr in eng.protocols:
+            for addr_ in pr._timers:
+                n_ = len(pr._deferred.get(addr_, ()))
+                tcmin = n_ if tcmin is None else min(tcmin, n_)
         return [bool(za.done), bool(a_.transports and all(x.closed for x in a_.transports)), bool(t is not None and not t.cancelled()),
-                bool(rx is None or rx.closed), bool(eng.running_event is not None and eng.running_event.is_set())]
+                bool(rx is None or rx.closed), bool(eng.running_event is not None and eng.running_event.is_set()), tcmin]
 
     orig_block = sim.block
 
@@ -334,6 +340,7 @@ def simulate(case, close_at, want_blocks=True):
         obs["marks"]["n_callbacks_at_return"] = len(obs["callbacks"])
         obs["marks"]["n_attempts_at_return"] = len(sim.sends_after_close)
         obs["state_after_close"] = state_digest(za, aza)
+        obs["transports_aborted"] = sum(1 for t_ in a.transports if getattr(t_, "aborted", False))
         obs["tracked_not_cancelled"] = sum(1 for br in tracked_at_close
                                            if not (br.done and br.query_scheduler._next_run is None and br not in za.record_manager.listeners))
         await sim.sleep_ms(case["second_close_after"])
@@ -463,8 +470,14 @@ def simulate_early(case):
         t = eng._cleanup_timer
         a_ = src["a"]
         rx = a_.ltransport if a_.ltransport is not None else a_.transport
+        # the listener invariant read off the real objects: fewest deferred packets over the armed TC timers (None: none armed)
+        tcmin = None
+        for pr in eng.protocols:
+            for addr_ in pr._timers:
+                n_ = len(pr._deferred.get(addr_, ()))
+                tcmin = n_ if tcmin is None else min(tcmin, n_)
         return [bool(za.done), bool(a_.transports and all(x.closed for x in a_.transports)), bool(t is not None and not t.cancelled()),
-                bool(rx is None or rx.closed), bool(eng.running_event is not None and eng.running_event.is_set())]
+                bool(rx is None or rx.closed), bool(eng.running_event is not None and eng.running_event.is_set()), tcmin]
 
     orig_block = sim.block
     sim.block = lambda kind, obj=None, **kw: orig_block(kind, obj, flags=snap(), **kw)
@@ -615,6 +628,13 @@ def evaluate(res, case, obs):
     for k, r in enumerate(obs.get("close_results", [])):
         if r not in ("ok", "ca"):
             bad.append(("C17:close-call-raises:" + r, "overlapping async_close() call #%d raised %s" % (k, r)))
+    starved = [e for e in obs["blocks"] if e.get("flags") is not None and len(e["flags"]) > 5 and e["flags"][5] == 0]
+    if starved:
+        bad.append(("C17:armed-tc-timer-without-deferred-packet",
+                    "at %d ms (block %s) the listener has an armed deferred-query timer for an address with no deferred packet: the timer will raise IndexError into the loop"
+                    % (starved[0]["t"], starved[0]["kind"])))
+    if obs.get("transports_aborted"):
+        bad.append(("C17:transport-aborted", "the close aborted %d transports instead of closing them: datagrams still buffered (the last goodbye) are discarded" % obs["transports_aborted"]))
     if obs.get("tracked_not_cancelled"):
         bad.append(("C17:tracked-browser-not-cancelled", "%d browsers registered through AsyncZeroconf are still live (scheduler armed or listening) after close returned" % obs["tracked_not_cancelled"]))
     st = obs["state_after_close"]
@@ -688,7 +708,8 @@ def block_lines(case, obs):
         ncb = sum(1 for o in e["out"] if "callback" in o)
         after = idx >= mk["n_events_at_return"]
         f = e["flags"]
-        ops.append("%s %s %s %s %s %s %d %d" % (k, C.b01(f[0]), C.b01(f[1]), C.b01(f[3]), C.b01(f[2]), C.b01(after), nsend, ncb))
+        ops.append("%s %s %s %s %s %s %d %d %s" % (k, C.b01(f[0]), C.b01(f[1]), C.b01(f[3]), C.b01(f[2]), C.b01(after), nsend, ncb,
+                                                     "-" if len(f) < 6 or f[5] is None else str(f[5])))
         info.append((e["t"], kind, nsend, ncb, after))
     return (["c17run %d %s" % (len(ops), " ".join(ops))] if ops else []), info
 
@@ -896,7 +917,7 @@ def run(ctx):
     c17_threads.run(res, ctx, violate_limited)
     n = C.Budget(ctx["tier"], 150, 4000).n
     if ctx["widened"]:
-        n *= 2
+        n = int(n * 1.5)
     for idx in range(n):
         if idx % 8 == 5:
             run_early_case(res, gen_early_case(ctx["seed"], idx), ctx, acc)
